@@ -327,7 +327,7 @@ func init() {
 	core.Register(&core.Prop{
 		ID:    "C01",
 		Level: "model_checking",
-		Rule:  "E1: the real omniparser.Transform over a scripted caller-supplied ingester: every ingester answer sequence over {record A, record B, continuable error, two fatal errors, EOF, bytes+fatal error, bytes+continuable error} up to length 4 x every caller history over {Read, RawRecord(+Raw/Checksum)} up to length 7, each step checked against the contract automaton (states = distinct (latched?, last Read failed?, ingester position) reached, transitions = calls), plus the differential 'history with RawRecord calls removed gives the same Read results'; E2: the seven real readers on every token string up to length 5 over per-format alphabets for every minimal schema, under four driver variants (Read;RawRecord / no RawRecord / RawRecord twice / RawRecord before the first Read), 3 extra Reads after the terminal result, checksum recomputed from the raw node; E3: 11 FINAL_OUTPUT shapes (scalar field, const-less concat, object, array, no_trim, typed, external, javascript, copy) x csv / JSON / XML / EDI input x a value containing each single byte 0x00-0xFF and each of 24 multi-byte sequences (valid runes incl. U+2028, non-characters, non-BMP; truncated, overlong, surrogate and lone-continuation sequences): every record valid UTF-8 JSON and, where defined, equal to the value with invalid bytes replaced by U+FFFD",
+		Rule:  "E1: the real omniparser.Transform over a scripted caller-supplied ingester: every ingester answer sequence over {record A, record B, continuable error, two fatal errors, EOF, bytes+fatal error, bytes+continuable error} up to length 4 x every caller history over {Read, RawRecord(+Raw/Checksum)} up to length 7, each step checked against the contract automaton (states = distinct (latched?, last Read failed?, ingester position) reached, transitions = calls), plus the differential 'history with RawRecord calls removed gives the same Read results'; E2: the seven real readers on every token string up to length 5 over per-format alphabets for every minimal schema, under four driver variants (Read;RawRecord / no RawRecord / RawRecord twice / RawRecord before the first Read), 3 extra Reads after the terminal result, checksum recomputed from the raw node; E3: 11 FINAL_OUTPUT shapes (scalar field, const-less concat, object, array, no_trim, typed, external, javascript, copy) x csv / JSON / XML / EDI input x a value containing each single byte 0x00-0xFF and each of 41 multi-byte sequences (incl. text that looks like a JSON or HTML-safe escape) (valid runes incl. U+2028, non-characters, non-BMP; truncated, overlong, surrogate and lone-continuation sequences): every record valid UTF-8 JSON and, where defined, equal to the value with invalid bytes replaced by U+FFFD",
 		Assumptions: []string{
 			"E1 assumes a well-behaved ingester in the sense of the interface documentation, except that it may return bytes together with an error",
 			"E2 inputs are token strings, not all byte strings; panics and non-termination are C03's subject and are not double-reported here",
@@ -517,6 +517,8 @@ func c01ShapeCases() []c01E2Case {
 		seqs = append(seqs, string([]byte{byte(b)}))
 	}
 	seqs = append(seqs, "\u00e9", "\u2028", "\u2029", "\ufffd", "\ufffe", "\uffff", "\U0001F600", "\U000E0001", "\U0010FFFF", "\u0085", "\u00a0", "\u200b", "\ufeff",
+		// text that looks like a JSON / HTML-safe escape, as data
+		`\u003c`, `\u003e`, `\u0026`, `\\u003c`, `\u2028`, `\n`, `\"`, `\\`, `\`, `\u00`, `<`, `>`, `&`, `&lt;`, `&#60;`, `\x3c`, `%3C`,
 		"\xc3", "\xe4\xb8", "\xf0\x9f\x98", "\xc0\xaf", "\xe0\x80\xaf", "\xed\xa0\x80", "\xed\xb0\x80", "\xf4\x90\x80\x80", "\x80\x80", "\xfe\xff", "\xef\xbb")
 	hdr := func(f string) string {
 		return `"parser_settings":{"version":"omni.2.1","file_format_type":"` + f + `"}`
